@@ -737,6 +737,11 @@ func init() {
 	for _, n := range []string{"Printf", "Println", "Print", "Fatalln", "Fatalf", "Fatal", "Panicf", "Panicln", "SetOutput", "SetFlags", "SetPrefix"} {
 		name := n
 		reg("(*log.Logger)."+name, func(m *Machine, fn *ssa.Function, a []Value) Value {
+			if !strings.HasPrefix(name, "Set") && len(a) > 0 {
+				if lg, ok := a[0].(*Ext); ok && lg != nil {
+					m.loggerWrite(lg)
+				}
+			}
 			if strings.HasPrefix(name, "Fatal") {
 				m.osExit(1, "log.Fatal")
 			}
@@ -744,9 +749,15 @@ func init() {
 		})
 		reg("log."+name, intrinsics["(*log.Logger)."+name])
 	}
-	reg("log.New", func(m *Machine, fn *ssa.Function, a []Value) Value { return &Ext{Kind: "logger", F: map[string]Value{}} })
+	// a logger owns a mutex and writes to its sink under it; what is logged is not
+	// modelled, the synchronisation of the sink is (race analysis)
+	reg("log.New", func(m *Machine, fn *ssa.Function, a []Value) Value {
+		mu := new(Value)
+		*mu = Struct{int64(0), int64(0)}
+		return &Ext{Kind: "logger", F: map[string]Value{"w": a[0], "mu": mu}}
+	})
 	reg("io.MultiWriter", func(m *Machine, fn *ssa.Function, a []Value) Value {
-		return Iface{T: m.extType("writer"), V: &Ext{Kind: "writer", F: map[string]Value{}}}
+		return Iface{T: m.extType("writer"), V: &Ext{Kind: "writer", F: map[string]Value{"ws": a[0]}}}
 	})
 
 	// ------------------------------------------------------------ sync
@@ -1233,4 +1244,70 @@ func init() {
 			return m.normScalar(acc)
 		})
 	}
+}
+
+// loggerWrite: one output operation of a log.Logger for the race analysis: the logger's
+// own mutex is held around a write to its sink. Files (and the standard streams) are
+// synchronised by the kernel; a bufio.Writer is plain memory.
+func (m *Machine) loggerWrite(lg *Ext) {
+	if m.race == nil || m.cur == nil {
+		return
+	}
+	mu, _ := lg.F["mu"].(*Value)
+	if mu == nil || !sinkIsMemory(lg.F["w"], 0) {
+		return // sinks that the kernel synchronises: nothing to order
+	}
+	m.raceEvent(evLock, mu)
+	m.sinkWrite(lg.F["w"], 0)
+	m.raceEvent(evUnlock, mu)
+}
+
+func (m *Machine) sinkWrite(v Value, depth int) {
+	if depth > 4 {
+		return
+	}
+	if it, ok := v.(Iface); ok {
+		v = it.V
+	}
+	e, ok := v.(*Ext)
+	if !ok || e == nil {
+		return
+	}
+	switch e.Kind {
+	case "writer":
+		if ws, ok := e.F["ws"].(Slice); ok {
+			for _, w := range ws {
+				m.sinkWrite(w, depth+1)
+			}
+		}
+	case "bufwriter":
+		m.logAccess(true, e, "bufio.Writer write")
+	}
+}
+
+// sinkIsMemory: the sink (or a member of a MultiWriter) is an in-memory writer.
+func sinkIsMemory(v Value, depth int) bool {
+	if depth > 4 {
+		return false
+	}
+	if it, ok := v.(Iface); ok {
+		v = it.V
+	}
+	e, ok := v.(*Ext)
+	if !ok || e == nil {
+		return false
+	}
+	switch e.Kind {
+	case "writer":
+		if ws, ok := e.F["ws"].(Slice); ok {
+			for _, w := range ws {
+				if sinkIsMemory(w, depth+1) {
+					return true
+				}
+			}
+		}
+	case "bufwriter":
+		return true
+	}
+	return false
 }
